@@ -1,5 +1,13 @@
 """C11 -- cross-based aggregation averages costs over the combined support region.
 
+T-gen : translator/gen_cbca_kernels.py rewrites coq/Gen/CbcaKernels.v from the `ast` of the five numba kernels
+        (cbca_step_1..4, cross_support) as trees of the IR of Lib/KernelIR.v; Props/C11.v re-proves at every run
+        that they are the canonical trees (C11_gen_*_canonical) for which Proofs/CbcaIRP.v proves, for all inputs,
+        evaluation = Model/Cbca.v (C11_gen_*_eq) and the headline on the generated kernels (C11_gen_model_eq_spec).
+T-corr (kernels): the IR evaluator extracted with the REGENERATED trees (Extract/X11K.v) against the compiled numba
+        kernels called one by one on inputs the pipeline never produces (arbitrary arm tables inside their bounds,
+        arbitrary running sums, NaN / +-inf pixels and costs, shuffled range_col, empty axes), compared for equality:
+        validates the semantics written in Lib/KernelIR.v and the translator.
 T-corr: the extracted model (Model/Cbca.v: mask -> NaN, 3x3 median, shifted right masks, crop,
         cross_support loops, cbca_step_1..4 with their sentinel reads, anchor, NaN re-injection,
         normalisation, plane loop) against the REAL code driven as the state machine drives it:
@@ -17,9 +25,9 @@ import numpy as np
 from harness import core
 from harness import pandora_util as pu
 
-GEN = []
-EXTRACT_FILES = ["X11"]
-DRIVERS = ["x11"]
+GEN = ["gen_cbca_kernels"]
+EXTRACT_FILES = ["X11", "X11K"]
+DRIVERS = ["x11", "x11k"]
 RULE = ("one case = one image pair (5..12 x 6..14, integer radiometry, flat / piecewise-constant / ramp / noisy "
         "textures so that arms are long, cut by intensity jumps, by masks or by the image sides), masks on none / "
         "left / right / both sides (pixels, blocks, whole columns; several mask conventions), matching cost sad or "
@@ -40,8 +48,30 @@ ASSUMES = [
     "float32 accumulation: on the generated domain every running sum is an exact float32 (checked bound), the final "
     "quotient is compared with the bridging tolerance (rule b)",
 ]
-TRUSTED = ["numba's compilation of the kernels (negative-index wrap-around, value of a loop variable after a loop)",
+TRUSTED = ["numba's compilation of the kernels: it implements the Python / numpy semantics written once in "
+           "Lib/KernelIR.v (negative-index wrap-around, range, break, value of a loop variable after a loop, slices, "
+           "IEEE inf / NaN); int16 / int64 / float32 / float64 widths are recorded in the trees but integers and "
+           "rationals are exact in the evaluator (int32 arms: C11_gen_arms_fit_int32; exact float sums: checked domain of "
+           "the correspondence)",
+           "translator/gen_cbca_kernels.py (one ast construct -> one IR constructor; numbering of the variables)",
            "scipy.ndimage.zoom (shifted right images) and np.nanmedian"]
+GEN_OBLIGATIONS = [
+    "C11_gen_cross_support_canonical: Gen.CbcaKernels.cross_support = Model.CbcaIR.cross_support (eq_refl on the tree "
+    "regenerated from cbca.py cross_support: loop headers, break condition, increments, minimum-arm expression, "
+    "initial value of the four loop variables, dtypes, numba signature)",
+    "C11_gen_step1_canonical: Gen.CbcaKernels.cbca_step_1 = Model.CbcaIR.cbca_step_1 (eq_refl)",
+    "C11_gen_step2_canonical: Gen.CbcaKernels.cbca_step_2 = Model.CbcaIR.cbca_step_2 (eq_refl)",
+    "C11_gen_step3_canonical: Gen.CbcaKernels.cbca_step_3 = Model.CbcaIR.cbca_step_3 (eq_refl)",
+    "C11_gen_step4_canonical: Gen.CbcaKernels.cbca_step_4 = Model.CbcaIR.cbca_step_4 (eq_refl)",
+    "C11_gen_cross_support_eq / C11_gen_step1_eq .. C11_gen_step4_eq: forall inputs, run_kernel (generated tree) "
+    "succeeds (no access outside an array) and returns Model.cross_support / step1 / step2, sum2 / step3 / step4, sum4 "
+    "(Proofs/CbcaIRP.v gen_* instantiated with the generated trees)",
+    "C11_gen_model_eq_spec: generated cross_support on both images, the four generated kernels chained as the plane "
+    "loop chains them, anchor + NaN re-injection + division = agg_spec, for every image pair, plane and pixel",
+    "C11_gen_arms_fit_int32: the arms stored by cross_support fit the int32 cells (cbca_distance <= 2^31 or sides <= 2^31)",
+    "C11_gen_example_runs: vm_compute of the evaluator on the generated cross_support (distance-1 witness) and "
+    "cbca_step_1 (NaN cost, sentinel read)",
+]
 
 
 # ---------------------------------------------------------------- oracle written from the property text
@@ -356,6 +386,270 @@ def _first_diff(a, b, path=()):
     return None if a == b else {"at": list(path), "impl": a, "model": b}
 
 
+
+# ---------------------------------------------------------------- direct correspondence: IR evaluator on the
+# regenerated trees (Extract/X11K.v) = compiled numba kernels
+
+
+def _cell(x):
+    """numpy scalar -> cell of the extraction protocol / canonical form: int, Fraction, None (NaN), [1] / [-1] (inf)"""
+    if isinstance(x, (int, np.integer)):
+        return int(x)
+    x = float(x)
+    if math.isnan(x):
+        return None
+    if math.isinf(x):
+        return [1] if x > 0 else [-1]
+    return F(*x.as_integer_ratio())
+
+
+def _cells(a):
+    a = np.asarray(a)
+    if a.ndim == 0:
+        return _cell(a[()])
+    return [_cells(x) for x in a]
+
+
+def _arr(a):
+    """(shape, nested cells)"""
+    a = np.asarray(a)
+    return [list(a.shape), _cells(a)]
+
+
+def _canon(v):
+    """decoded model cell / nested -> canonical python (Fraction for (n d), None for ())"""
+    if isinstance(v, int):
+        return v
+    if v == []:
+        return None
+    return v
+
+
+def _model_arrays(res):
+    """decoded enc_res -> list of (shape, nested) with cells canonical; None when the evaluation failed"""
+    if isinstance(res, int):
+        return None
+    out = []
+    for a in res:
+        shape, data = a[0], a[1]
+
+        def conv(x, depth):
+            if depth == 0:
+                if isinstance(x, int):
+                    return x
+                if x == []:
+                    return None
+                if len(x) == 2:
+                    return F(x[0], x[1])
+                return x
+            return [conv(y, depth - 1) for y in x]
+        out.append([shape, conv(data, len(shape))])
+    return out
+
+
+def _impl_arrays(arrs):
+    out = []
+    for a in arrs:
+        a = np.asarray(a)
+        shape, data = list(a.shape), _cells(a)
+
+        def conv(x, depth):
+            if depth == 0:
+                if isinstance(x, F) and x.denominator == 1 and False:
+                    return x
+                return x
+            return [conv(y, depth - 1) for y in x]
+        out.append([shape, conv(data, len(shape))])
+    return out
+
+
+def _same(impl, model):
+    """exact comparison; an int of the model equals the same float of the implementation (dtype promotion)"""
+    if isinstance(impl, list) and isinstance(model, list):
+        return len(impl) == len(model) and all(_same(a, b) for a, b in zip(impl, model))
+    if isinstance(impl, list) or isinstance(model, list):
+        return False
+    if impl is None or model is None:
+        return impl is None and model is None
+    return F(impl) == F(model)
+
+
+def _rand_arms(rng, nr, nc, bounded, dtype):
+    """(nr, nc, 4) arm table: [left, right, top, bot]; bounded = inside the image (the left table), else only >= 0"""
+    a = np.zeros((nr, nc, 4), dtype=dtype)
+    for r in range(nr):
+        for c in range(nc):
+            if bounded:
+                lim = [c, nc - 1 - c, r, nr - 1 - r]
+                a[r, c] = [rng.randrange(0, x + 1) if rng.random() < 0.8 else x for x in lim]
+            else:
+                a[r, c] = [rng.choice([0, 0, 1, 2, 3, 9, 300]) for _ in range(4)]
+    return a
+
+
+def _rand_cols(rng, nc, nc_r):
+    k = rng.randrange(0, nc + 1)
+    rc = rng.sample(range(nc), k)
+    if rng.random() < 0.6:
+        rc.sort()
+    rcr = [rng.randrange(nc_r) for _ in rc]
+    return np.array(rc, dtype=np.int64), np.array(rcr, dtype=np.int64)
+
+
+def _rand_floats(rng, nr, nc, dtype, special):
+    a = np.zeros((nr, nc), dtype=dtype)
+    for r in range(nr):
+        for c in range(nc):
+            u = rng.random()
+            if u < special:
+                a[r, c] = rng.choice([np.nan, np.nan, np.nan, np.inf, -np.inf])
+            else:
+                a[r, c] = rng.randrange(-60, 61) * rng.choice([1, 1, 0.5, 0.25])
+    return a
+
+
+def kernel_cases(rng, n):
+    """n direct calls per kernel: (fid, name, impl thunk, model argument, replay description)"""
+    from pandora.aggregation import cbca
+
+    # the arm tables given to steps 2 and 4 have the integer type cross_support returns
+    arm_t = cbca.cross_support(np.zeros((1, 1), dtype=np.float32), 1, np.float32(1.0)).dtype
+    out = []
+    for i in range(n):
+        # ---- cross_support
+        nr, nc = rng.randrange(1, 8), rng.randrange(1, 9)
+        if i % 15 == 0:
+            nr, nc = rng.choice([(0, 3), (3, 0), (1, 1)])
+        amp = rng.choice([4, 12, 60])
+        img = np.zeros((nr, nc), dtype=np.float32)
+        for r in range(nr):
+            for c in range(nc):
+                u = rng.random()
+                img[r, c] = (np.inf if u < 0.15 else np.nan if u < 0.18 else -np.inf if u < 0.21
+                             else rng.randrange(0, amp) + rng.choice([0, 0, 0.5]))
+        length = rng.choice([1, 1, 2, 2, 3, 4, 6, 40000])
+        inten = F(rng.randrange(1, 41), rng.choice([1, 1, 2, 4]))
+        out.append((1, "cross_support",
+                    (lambda img=img, length=length, inten=inten:
+                     [cbca.cross_support(img, length, np.float32(float(inten)))]),
+                    [length, inten] + _arr(img),
+                    {"kernel": "cross_support", "len_arms": length, "intensity": str(inten), "image": img.tolist()}))
+        # ---- cbca_step_1
+        nr, nc = rng.randrange(1, 7), rng.randrange(1, 9)
+        if i % 15 == 1:
+            nr, nc = rng.choice([(0, 3), (3, 0), (1, 1)])
+        cv = _rand_floats(rng, nr, nc, np.float32, rng.choice([0.0, 0.15, 0.4]))
+        out.append((2, "cbca_step_1", (lambda cv=cv: [cbca.cbca_step_1(cv)]), _arr(cv),
+                    {"kernel": "cbca_step_1", "cv": cv.tolist()}))
+        # ---- cbca_step_2
+        nr, nc, nc_r = rng.randrange(1, 6), rng.randrange(1, 8), rng.randrange(1, 8)
+        s1 = _rand_floats(rng, nr, nc + 1, np.float64, rng.choice([0.0, 0.0, 0.1]))
+        c_l, c_r = _rand_arms(rng, nr, nc, True, arm_t), _rand_arms(rng, nr, nc_r, False, arm_t)
+        rc, rcr = _rand_cols(rng, nc, nc_r)
+        out.append((3, "cbca_step_2",
+                    (lambda s1=s1, c_l=c_l, c_r=c_r, rc=rc, rcr=rcr: list(cbca.cbca_step_2(s1, c_l, c_r, rc, rcr))),
+                    _arr(s1) + _arr(c_l) + _arr(c_r) + [_cells(rc), _cells(rcr)],
+                    {"kernel": "cbca_step_2", "step1": s1.tolist(), "cross_left": c_l.tolist(),
+                     "cross_right": c_r.tolist(), "range_col": rc.tolist(), "range_col_right": rcr.tolist()}))
+        # ---- cbca_step_3
+        nr, nc = rng.randrange(1, 7), rng.randrange(1, 9)
+        if i % 15 == 2:
+            nc = 0
+        s2 = _rand_floats(rng, nr, nc, np.float64, rng.choice([0.0, 0.0, 0.1]))
+        out.append((4, "cbca_step_3", (lambda s2=s2: [cbca.cbca_step_3(s2)]), _arr(s2),
+                    {"kernel": "cbca_step_3", "step2": s2.tolist()}))
+        # ---- cbca_step_4
+        nr, nc, nc_r = rng.randrange(1, 6), rng.randrange(1, 8), rng.randrange(1, 8)
+        s3 = _rand_floats(rng, nr + 1, nc, np.float64, rng.choice([0.0, 0.0, 0.1]))
+        sm2 = np.array([[rng.randrange(0, 12) for _ in range(nc)] for _ in range(nr)], dtype=np.float32).reshape(nr, nc)
+        c_l, c_r = _rand_arms(rng, nr, nc, True, arm_t), _rand_arms(rng, nr, nc_r, False, arm_t)
+        rc, rcr = _rand_cols(rng, nc, nc_r)
+        out.append((5, "cbca_step_4",
+                    (lambda s3=s3, sm2=sm2, c_l=c_l, c_r=c_r, rc=rc, rcr=rcr:
+                     list(cbca.cbca_step_4(s3, sm2, c_l, c_r, rc, rcr))),
+                    _arr(s3) + _arr(sm2) + _arr(c_l) + _arr(c_r) + [_cells(rc), _cells(rcr)],
+                    {"kernel": "cbca_step_4", "step3": s3.tolist(), "sum2": sm2.tolist(), "cross_left": c_l.tolist(),
+                     "cross_right": c_r.tolist(), "range_col": rc.tolist(), "range_col_right": rcr.tolist()}))
+    return out
+
+
+def kernel_correspondence(ctx, n):
+    cases = kernel_cases(ctx.rng, n)
+    mres = core.Model("x11k").batch([(fid, arg) for fid, _, _, arg, _ in cases])
+    for (fid, name, thunk, _, desc), res in zip(cases, mres):
+        impl = _impl_arrays(thunk())
+        model = _model_arrays(res)
+        ctx.traces += 1
+        ctx.count("kernel_calls_" + name)
+        if model is None:
+            ctx.mismatch("kernel_ir:" + name, desc, "the compiled kernel returned", "the IR evaluation failed "
+                         "(access outside an array or type error)")
+        elif not _same(impl, model):
+            ctx.mismatch("kernel_ir:" + name, desc, _first_diff(_plain(impl), _plain(model)), "IR evaluator differs")
+
+
+def _plain(x):
+    if isinstance(x, list):
+        return [_plain(y) for y in x]
+    if isinstance(x, F):
+        return float(x)
+    return x
+
+
+
+# ---------------------------------------------------------------- arms longer than 32767 pixels
+# C11_gen_arms_fit_int32 (Props/C11.v) bounds an arm by min(cbca_distance - 1, image side - 1): no sample of small
+# images can exercise the width of the integer type the arms are stored in, so one wide flat row is run on every check.
+
+
+def wide_image_regression(ctx, full):
+    """1 x 33000 flat pair, cbca_distance 40000: every pixel of the row is in every arm, so the left arm of column c is
+    c, its right arm n - 1 - c (closed form of the specification on a flat unmasked row), and the aggregated cost of a
+    constant cost plane is that constant whatever the region"""
+    from pandora.aggregation import cbca
+
+    n, dist = 33000, 40000
+    replay = {"wide_row": True, "nc": n, "distance": dist, "left": 7, "right": 9, "intensity": [5, 1]}
+    img = np.full((1, n), 7, dtype=np.float32)
+    cross = cbca.cross_support(img, dist, np.float32(5.0))
+    ctx.traces += 1
+    cols = np.arange(n)
+    want = np.zeros((n, 4), dtype=np.int64)
+    want[:, 0] = np.minimum(dist - 1, cols)
+    want[:, 1] = np.minimum(dist - 1, n - 1 - cols)
+    ctx.case(("wide_row", "arms"))
+    ctx.count("wide_row_arm_checks", 4 * n)
+    got = cross[0].astype(np.int64)
+    arms_ok = np.array_equal(got, want)
+    if not arms_ok:
+        c, k = [int(x) for x in np.argwhere(got != want)[0]]
+        ctx.violation("arm_longer_than_32767",
+                      f"cross_support on a flat 1 x {n} row with cbca_distance={dist}: arm {['left', 'right', 'top', 'bot'][k]} "
+                      f"of column {c} is {int(got[c, k])}; the longest run of the specification has {int(want[c, k])} pixels",
+                      replay)
+    if not full:
+        return
+    case = dict(nr=1, nc=n, left=[[7] * n], right=[[9] * n], mask_left=None, mask_right=None, valid=0, nodata=1,
+                method="sad", window=1, subpix=1, dmin=0, dmax=0, distance=dist, intensity=[5, 1])
+    L, R, cv = build_inputs(case)
+    before = cv["cost_volume"].data.copy()
+    aggregator(case).cost_volume_aggregation(L, R, cv)
+    after = cv["cost_volume"].data
+    ctx.traces += 1
+    ctx.case(("wide_row", "aggregate"))
+    ctx.count("wide_row_aggregate_checks", n)
+    if not (before == 2).all():
+        ctx.broken_obligation("assumption:wide_row_costs", "sad of constant images 7 and 9 is not 2 everywhere")
+        return
+    bad = np.argwhere(~(np.abs(after[0, :, 0] - 2.0) <= 2.0 ** -16))
+    if bad.size:
+        c = int(bad[0][0])
+        ctx.violation("region_mean" if arms_ok else "arm_longer_than_32767",
+                      f"flat 1 x {n} pair (left 7, right 9, sad, window 1, d = 0), cbca_distance={dist}: every input cost is "
+                      f"2, so every regional mean is 2; the aggregated cost of column {c} is {float(after[0, c, 0])} "
+                      f"({bad.shape[0]} columns differ)", replay)
+
+
 def prepare(ctx, case):
     """build the real pre-aggregation volume and the model argument; None when outside the exact domain"""
     from pandora.img_tools import shift_right_img
@@ -417,11 +711,17 @@ CORPUS = [
 
 def run(ctx):
     rng = ctx.rng
+    ctx.gen_obligations = list(GEN_OBLIGATIONS)
     quick = ctx.tier == "quick"
     model = core.Model("x11")
+    if getattr(ctx, "replay_case", None) is not None and ctx.replay_case.get("wide_row"):
+        wide_image_regression(ctx, True)
+        return
     if getattr(ctx, "replay_case", None) is not None:
         cases = [dict(ctx.replay_case)]
     else:
+        kernel_correspondence(ctx, 60 if quick else 600)
+        wide_image_regression(ctx, True)
         n = 150 if quick else 3000
         cases = [dict(c) for c in CORPUS]
         # long arms and arms cut by masks / sides are forced on a share of the cases
